@@ -77,6 +77,12 @@ pub fn check_roundtrip(ctx: &mut Ctx, t: &tir::Tx, origin: &str) {
                 }
                 ctx.violation(format!("roundtrip:structure:{field}"), detail("canonical forms differ"));
             }
+            // the same comparison on a view that reads the model's public fields directly: a lossy or
+            // order-dependent Serialize impl cannot hide behind itself there
+            let (sa, sb) = (crate::structural::tx(t), crate::structural::tx(&back));
+            if sa != sb {
+                ctx.violation(format!("roundtrip:fields:{}", crate::structural::first_difference(&sa, &sb)), detail("the decoded IR differs from the original when both are read field by field"));
+            }
             let (pa, pb) = (canon::canon_bytes(&find_params(t)), canon::canon_bytes(&find_params(&back)));
             if pa != pb {
                 ctx.violation("roundtrip:params", detail("find_params differs"));
